@@ -1,4 +1,5 @@
 import Babble.Proofs.HGOrder
+import Babble.Proofs.HGFinal
 import Babble.Proofs.HGBlocks
 import Babble.Proofs.DagVote
 /-! # C03 — consensus output is a function of the event DAG only
@@ -70,5 +71,17 @@ theorem passes_do_not_touch_output (s : St) :
 
 example : Median.median64 [3, 1, 2] = Median.median64 [1, 2, 3] :=
   median_order_independent _ _ (by decide)
+
+/-- **assigned values are final** (operational model, any validator-set behaviour): whatever round,
+    witness flag, Lamport timestamp or round received an event has at some moment of an insertion
+    history (fresh events with distinct ids, into a node started from genesis), it has after every
+    continuation of that history — later events and later consensus passes never revise it. -/
+theorem assigned_values_are_final (g : List Nat) (es1 es2 : List Babble.HG.Ev)
+    (hnd : ((es1 ++ es2).map (·.id)).Nodup) (hrr : ∀ e ∈ es1 ++ es2, e.rr = none) (x : String) (e : Babble.HG.Ev)
+    (hx : (Babble.HG.runAll (Babble.HG.St.init g) es1).get x = some e) :
+    ∃ e', (Babble.HG.runAll (Babble.HG.St.init g) (es1 ++ es2)).get x = some e' ∧
+      (e.round.isSome → e'.round = e.round ∧ e'.wit = e.wit) ∧ (e.lamport.isSome → e'.lamport = e.lamport) ∧
+      (e.rr.isSome → e'.rr = e.rr) :=
+  Babble.HG.values_final g es1 es2 hnd hrr x e hx
 
 end Babble.Props.C03
